@@ -71,3 +71,70 @@ def crash_as_dev(PROP, c, part):
     return {"cfg": cfg}
 
 
+
+
+def trace_part(ev, prop, part, family, binaries, p, vine, nwalks, steps, nmax, matchers=None, fnd=None):
+    """Free-running random histories beyond the bounded model, executed on every configuration of `binaries` with the
+    matrices logged, validated by Trace_PersistenceMatrix.tla (barcode, legality of every step, matrix identities are
+    all evaluated by TLC).  Returns the list of unknown rejections."""
+    import glob
+    import json
+    import sys
+    sys.path.insert(0, os.path.join(vf.ROOT, "lib"))
+    import pm_walks
+    rnd = random.Random(vf.seed() * 31 + family)
+    work = os.path.join(vf.BUILD, "work", "%s_%s_%d" % (prop, part, os.getpid()))
+    os.makedirs(work, exist_ok=True)
+    gp = os.path.join(work, "groups.ndjson")
+    with open(gp, "w") as f:
+        for _ in range(nwalks):
+            f.write(json.dumps({"u": -1, "path": pm_walks.gen_walk(rnd, p, steps, nmax, vine), "edges": []}) + "\n")
+    sp = os.path.join(work, "states.ndjson")
+    open(sp, "w").write(json.dumps({"i": 0, "obs": {}}) + "\n")
+    cmds = []
+    for bi, b in enumerate(binaries):
+        cmds.append([b, sp, gp, os.path.join(work, "out_%d.ndjson" % bi)])
+    # one environment per binary (different trace files)
+    from concurrent.futures import ThreadPoolExecutor
+    def one(bi):
+        env = {"VF_P": str(p), "VF_IDS": "seq", "VF_LOGMAT": "1", "VF_TRACE_OUT": os.path.join(work, "trace_%d.ndjson" % bi)}
+        vf.run(cmds[bi], env=env, ok_codes=(0, 3), timeout=2400)
+    with ThreadPoolExecutor(min(len(cmds), 8)) as ex:
+        list(ex.map(one, range(len(cmds))))
+    # split per configuration
+    files = []
+    for tf in sorted(glob.glob(os.path.join(work, "trace_*.ndjson.*"))):
+        cur = None
+        outs = {}
+        for line in open(tf):
+            if line.startswith('{"op":"reset"'):
+                cur = json.loads(line)["cfg"]
+            outs.setdefault(cur, []).append(line)
+        for cfg, lines in outs.items():
+            fn = os.path.join(work, "cfg_%s_%s.ndjson" % (os.path.basename(tf).split(".")[0], cfg.replace("/", "_")))
+            open(fn, "w").write("".join(lines))
+            files.append((cfg, fn))
+    res = vf.validate_traces("Trace_PersistenceMatrix", "Trace_PersistenceMatrix_p%d.cfg" % p, [f for _, f in files], par=8,
+                             extra_java=("-Xss512m",), timeout=2400)
+    unknown = []
+    nev = 0
+    for (cfg, fn), rr in zip(files, res):
+        nev += rr["matched"]
+        if not rr["accepted"]:
+            lines = open(fn).read().splitlines()
+            m = rr["matched"]
+            hist = []
+            for ln in lines[:m]:
+                o = json.loads(ln)["op"]
+                hist = [] if o == "reset" else hist + [o]
+            bad = json.loads(lines[m]) if m < len(lines) else {}
+            dev = {"kind": "trace_rejected", "cfg": cfg, "hist": hist, "act": {k: v for k, v in bad.items() if k != "obs"},
+                   "file": fn, "line": m + 1, "obs_checks_failed": bad.get("obs", {}).get("checks_failed")}
+            if not (fnd and matchers and fnd.match(prop, dev, matchers) is not None):
+                unknown.append(dev)
+    ev.cov["traces_validated_against_impl"] += len(files)
+    ev.parts[part] = {"trace_files": len(files), "events_matched": nev, "walks": nwalks, "max_cells": nmax, "p": p,
+                      "spec": "Trace_PersistenceMatrix.tla (legality of each step, barcode = Bars(F'), B = boundaries of F', R reduced and "
+                              "matching the barcode, U triangular, B = R.U^T / R = B.U, chain columns: leading cells, cycles, boundary of a "
+                              "paired column = multiple of its partner - all evaluated by TLC)"}
+    return unknown
